@@ -164,11 +164,14 @@ def r4(ctx):
     names = sorted(set(mir.short(term[1]) for _, _, term in mut))
     allowed = {"AssetStates::asset_index_mut", "AssetState::update_from_balance",
                "InstrumentStates::instrument_index_mut", "InstrumentState::update_from_account_snapshot",
+               "InstrumentState::update_from_order_snapshot",     # (update_from_account_snapshot's own body written out)
                "Processor::process"}
     ctx.check("EngineState::update_from_account:Snapshot-arm", set(names) <= allowed,
               "the full-snapshot arm may mutate state only via update_from_balance / update_from_account_snapshot",
               sites=[t["sp"] for _, t, _ in mut], got=names, want=sorted(allowed), key="mutators")
     need = {"AssetState::update_from_balance", "InstrumentState::update_from_account_snapshot"}
+    if "InstrumentState::update_from_account_snapshot" not in names and "InstrumentState::update_from_order_snapshot" in names:
+        need = {"AssetState::update_from_balance", "InstrumentState::update_from_order_snapshot"}
     ctx.check("EngineState::update_from_account:Snapshot-arm", need <= set(names),
               "the full-snapshot arm must route balances and orders item by item through the guarded updaters",
               got=names, want=sorted(need), key="routes")
@@ -177,7 +180,8 @@ def r4(ctx):
         "AssetState::update_from_balance": {"Snapshot::Snapshot{0: Iterator::next(event.kind.as:Snapshot.0.balances).as:Some.0}",
                                             "Snapshot::Snapshot{0: event.kind.as:BalanceSnapshot.0.0}"},
         "InstrumentState::update_from_account_snapshot": {"Iterator::next(event.kind.as:Snapshot.0.instruments).as:Some.0"},
-        "InstrumentState::update_from_order_snapshot": {"Snapshot::Snapshot{0: event.kind.as:OrderSnapshot.0.0}"},
+        "InstrumentState::update_from_order_snapshot": {"Snapshot::Snapshot{0: event.kind.as:OrderSnapshot.0.0}",
+                                                        "Snapshot::Snapshot{0: Iterator::next(Iterator::next(event.kind.as:Snapshot.0.instruments).as:Some.0.orders).as:Some.0}"},
     }
     n_args = 0
     for bi, t, term in calls:
